@@ -120,6 +120,13 @@ def main():
                 env = dict(args)
                 env["result"] = res
                 failed, skipped = speceval.check_clauses(c.get("ensures", []), env, old)
+                for p_ in args:
+                    if p_ in c.get("modifies", []):
+                        continue
+                    a0, a1 = old[p_], args[p_]
+                    same = np.array_equal(np.asarray(a0), np.asarray(a1)) if isinstance(a0, (np.ndarray, list)) else True
+                    if not same:
+                        failed.append("frame: argument '%s' is not modified (was %r, now %r)" % (p_, np.asarray(a0).tolist(), np.asarray(a1).tolist()))
                 out["result"] = res.tolist() if isinstance(res, np.ndarray) else repr(res)
                 if failed:
                     out["violates"] = True
